@@ -15,7 +15,9 @@ import (
 // already emitted must not change afterwards (shared backing arrays). Each pool worker is interpreted on a
 // batch of records fed through ONE activation; the items, read after the whole batch, must equal the items
 // of one-record runs. The interpreter implements Go's slice aliasing and append-in-place.
-func checkWorkersStateless(c *core.Ctx, rule string, tabs *Tables) int {
+// only restricts the rule to the workers of the named packages ("pkg/updown", ...); none means every pool worker.
+func checkWorkersStateless(c *core.Ctx, rule string, tabs *Tables, only ...string) int {
+	in := func(pkg string) bool { return len(only) == 0 || containsStr(only, pkg) }
 	n := 0
 	recT := namedType(c, "pkg/fastaio", "EncodedFastaRecord")
 	enc := func(s string) eval.Value {
@@ -36,6 +38,9 @@ func checkWorkersStateless(c *core.Ctx, rule string, tabs *Tables) int {
 		return r
 	}
 	for _, w := range []struct{ pkg, name string }{{"pkg/snps", "getSNPs"}, {"pkg/updown", "getLines"}} {
+		if !in(w.pkg) {
+			continue
+		}
 		fn := c.LookupFunc(w.pkg, w.name)
 		key := rule + "/" + strings.TrimPrefix(w.pkg, "pkg/") + "." + w.name + "/no-state-between-records"
 		if fn == nil || recT == nil {
@@ -104,8 +109,16 @@ func checkWorkersStateless(c *core.Ctx, rule string, tabs *Tables) int {
 		}
 		c.Ob(key, len(bad) == 0, fn.Pos(), "%s", first(bad, 2))
 	}
+	if in("pkg/variants") {
+		n++
+		checkFastaWorkerStateless(c, tabs, rule)
+	}
 	// the sam workers
-	n++
-	checkSamWorkerStateless(c, tabs, rule)
+	if in("pkg/sam") {
+		n += 3
+		checkSamWorkerStateless(c, tabs, rule)
+		c02WorkerBatches(c, rule+"/sam.blockToPairwiseAlignment")
+		c01WorkerBatches(c, rule+"/sam.blockToFastaRecord")
+	}
 	return n
 }
